@@ -82,7 +82,7 @@ def main():
         res["checks"] = {}
         for c in checks:
             t = time.time()
-            rc, out = sh("./check %s --tier %s --no-evidence --first" % (c, a.tier), cwd=HERE, env={"VERIF_REPO": wt})
+            rc, out = sh("./check %s --tier %s --no-evidence --first" % (c, a.tier), cwd=HERE, env={"VERIF_REPO": wt, "VERIF_SLOTS": "0"})
             viol = [l for l in out.splitlines() if l.startswith("VIOLATION")]
             sigs = [l.strip() for l in out.splitlines() if l.strip().startswith("violations with signature")]
             msg = [l.strip() for l in out.splitlines() if l.strip().startswith("[")][:2]
